@@ -14,17 +14,20 @@ MANIFEST = {
             "order), the header counts them, an n-gram is kept iff its non-tag words pass (single / union / multiple, with "
             "the context option on the n-gram without its last word), copy keeps everything, and a back-off decoder "
             "restricted to the kept n-grams returns the same scores and matched lengths on every sentence over the "
-            "vocabulary. Tie: bin/filter (threads:1) byte-compared with the compiled Lean driver on generated ARPA / raw "
+            "vocabulary. Phrase mode: Tiles (read off a concatenation of one sentence's phrases) implies acceptance by the "
+            "model of BuildGraph's search graph (phrase_sound); the lazy LowerBound evaluation and hashing are tied by exact "
+            "correspondence. Tie: bin/filter (threads:1) byte-compared with the compiled Lean driver on generated ARPA / raw "
             "inputs x vocabulary / sentence files x modes x context x formats; then bin/query on original vs filtered model.",
     "note": "Trusted: Lean kernel + standard axioms; statements in lean/Properties/C11.lean; generators/comparator; "
             "std::sort's unspecified order among equal-size ranges is covered by stating the intersection theorems for every "
             "order of the ranges; hash collisions of boost::unordered_* / MurmurHash are out of scope; phrase mode is tied in "
-            "the stated (soundness) direction only.",
+            "the stated (soundness) direction: tool output >= Tiles lower bound (Lean tilesB = independent Python DP, sampled vs literal "
+            "enumeration) and, absent hash collisions, tool output == search-graph model byte for byte.",
     "technique": "Lean 4 proof over an executable model + differential correspondence with the real CLI tools",
 }
 
 REQUIRED = ["KV.C11.out_sublist", "KV.C11.header_counts", "KV.C11.kept_iff_single", "KV.C11.copy_identity",
-            "KV.C11.kept_iff_union", "KV.C11.kept_iff_multi", "KV.C11.out_sublist_binary", "KV.C11.out_sublist_multiple", "KV.C11.header_counts_counter",
+            "KV.C11.kept_iff_union", "KV.C11.kept_iff_multi", "KV.C11.out_sublist_binary", "KV.C11.out_sublist_multiple", "KV.C11.header_counts_counter", "KV.C11.phrase_sound", "KV.C11.phrase_sound_multiple", "KV.C11.phrase_sound_union",
             "KV.C11.context_option", "KV.C11.decode_equiv"]
 
 
@@ -170,7 +173,7 @@ def phrase_case(ctx, env, rng):
     d, kind = G.phrase_verdict(case, files, env["drv"], vp, mp, os.path.join(env["work"], "pd%d" % env["n"]))
     if d is not None:
         replay["tool"] = {k: v.decode("latin-1")[:3000] for k, v in files.items()}
-        ctx.violation("phrase mode: " + d, replay, no_input=(kind == "machinery"))
+        ctx.violation("phrase mode: " + d, replay, no_input=(kind != "tool"))
         return True
     # the oracle itself against literal enumeration of concatenations, on a sample
     for _ in range(3):
